@@ -10,3 +10,5 @@ mod c01;
 mod c14;
 #[cfg(kani)]
 mod c15;
+#[cfg(kani)]
+mod c17;
